@@ -115,6 +115,27 @@ Section C08.
     exact (resolve_state_exact c_versions c_requirements c_matching marker_true has_pre constraint_ok match_pre ver_lt root lt I T S fuel st H).
   Qed.
 
+  (* the same with the hypothesis moved to the client and the version comparator: MatchingVersions
+     answers strictly ascending in lt; Versions answers without repetition, on which the comparator
+     used by matchingVersionsWithPrereleases decides lt and any two versions are comparable.  (The
+     share of recorded tables that meet this is measured on every run.) *)
+  Theorem C08_candidates_exact_client_partial : forall (lt : vkey -> vkey -> Prop) fuel st,
+    (forall a, ~ lt a a) -> (forall a b c, lt a b -> lt b c -> lt a c) ->
+    (forall k l, c_matching k = Ok l -> StronglySorted lt l) ->
+    (forall p l, c_versions p = Ok l ->
+       NoDup l /\ forall a b, In a l -> In b l ->
+         (ver_lt (vk_ver a) (vk_ver b) = true <-> lt a b) /\ (a = b \/ lt a b \/ lt b a)) ->
+    ResolveState fuel = Ok st ->
+    forall n c, crit_get (criteria_of st) n = Some c ->
+    forall v, In v (c_cands c) <->
+              allowed c_versions c_matching has_pre constraint_ok match_pre ver_lt root (reqs_of c) v /\
+              ~ In v (c_incompat c).
+  Proof.
+    intros lt fuel st I T Hm Hv H.
+    exact (resolve_state_exact c_versions c_requirements c_matching marker_true has_pre constraint_ok match_pre ver_lt root lt I T
+             (gm_sorted_client c_versions c_matching has_pre constraint_ok match_pre ver_lt root lt T Hm Hv) fuel st H).
+  Qed.
+
   (* ---- a reported conflict is a real one (part of: failure only when no assignment exists) ----
      When mergeIntoCriterion answers with the requirements-conflict error (the error that makes a
      candidate be rejected, and, for a direct dependency, the whole resolution fail), no version is
@@ -257,6 +278,7 @@ Print Assumptions C08_backtrack_terminates.
 Print Assumptions C08_filter_slice_terminates.
 Print Assumptions C08_has_route_terminates.
 Print Assumptions C08_candidates_exact_partial.
+Print Assumptions C08_candidates_exact_client_partial.
 Print Assumptions C08_conflict_sound_partial.
 Print Assumptions C08_initial_error_sound_partial.
 Print Assumptions C08_graph_total.
